@@ -352,13 +352,14 @@ Section LoopFacts.
 
   Lemma good_perform_body a : good (perform_body react a).
   Proof.
-    destruct a as [| |q|h cc cn ex|h cc cn|]; cbn [perform_body].
+    destruct a as [| |q|h cc cn ex|h cc cn| |hd ccd cnd]; cbn [perform_body].
     - apply good_ret.
     - apply good_raise; exact I.
     - apply good_quit_fn.
     - apply good_switch_fn.
     - apply good_raise; exact I.
     - apply good_raise; exact I.
+    - apply good_ret.
   Qed.
 
   Lemma good_perform o a : good (perform react o a).
